@@ -119,6 +119,17 @@ def base_cases(r, tier):
         for mode in ("auto", "numbered"):
             out.append({"name": "backup-named-pair-%s%s" % (mode, tag), "spec": copy.deepcopy(sp), "pre": copy.deepcopy(pr), "bs": "4096", "expect_fail": False, "opts": ["--backup", mode],
                         "per": 24 if tier == "quick" else 120})
+    # ... two links in the destination that lead to one and the same file elsewhere (a file with a single name: only following the
+    # links tells), and a link to a sibling whose text is absolute while the destination is named relatively
+    pre18 = [{"p": "shared", "k": "d"}, F("shared/log", 10, 410), {"p": "dst", "k": "d"}, {"p": "dst/src", "k": "d"},
+             {"p": "dst/src/a", "k": "l", "target": "../../shared/log"}, {"p": "dst/src/b", "k": "l", "target": "../../shared/log"}]
+    out.append({"name": "two-links-to-one-file-elsewhere", "spec": copy.deepcopy(spec12), "pre": pre18, "bs": "4096", "expect_fail": False, "per": 24 if tier == "quick" else 120})
+    pre19 = [{"p": "dst", "k": "d"}, {"p": "dst/src", "k": "d"}, F("dst/src/e", 10, 411), {"p": "dst/src/c", "k": "l", "target": "@ROOT@/dst/src/e"}]
+    out.append({"name": "absolute-link-to-sibling-destination", "spec": copy.deepcopy(spec12), "pre": pre19, "bs": "4096", "expect_fail": False, "per": 24 if tier == "quick" else 120})
+    pre20 = [{"p": "dst", "k": "d"}, {"p": "dst/src", "k": "d"}, {"p": "dst/src/b", "k": "l", "target": "c"}, {"p": "dst/src/c", "k": "l", "target": "a"}]
+    out.append({"name": "dangling-link-chain-to-sibling-destination", "spec": copy.deepcopy(spec12), "pre": pre20, "bs": "4096", "expect_fail": False, "per": 24 if tier == "quick" else 120})
+    pre21 = [{"p": "dst", "k": "d"}, {"p": "dst/src", "k": "d"}, {"p": "dst/src/a", "k": "l", "target": "@ROOT@/dst/src/b"}]
+    out.append({"name": "absolute-dangling-link-to-sibling-destination", "spec": copy.deepcopy(spec12), "pre": pre21, "bs": "4096", "expect_fail": False, "per": 24 if tier == "quick" else 120})
     # T15: ... and the same through a link whose target does not exist yet (it is about to be created by this very run), and with
     # backups (where the rename of one name races with the look at the other)
     pre16 = [{"p": "dst", "k": "d"}, {"p": "dst/src", "k": "d"}, {"p": "dst/src/a", "k": "l", "target": "b"}, {"p": "dst/src/c", "k": "l", "target": "./e"}]
